@@ -25,6 +25,11 @@ def run(model, rep, tier):
     r8_noise_tolerance(ctx, rep)
     from . import c12
     c12.r3_accumulators(ctx, rep, R='C07.R7')
+    # nothing lost: the parent waits for every child before it uses the totals -- a thread leaves
+    # the set of running threads only when it is the one found dead, and the polling loop runs
+    # until nothing is ready or running (the obligations of the -j scheduling loop, shared with C06)
+    from . import c06
+    c06.r1_bounded_start(ctx, rep, R='C07.R9')
     rep.units['cfg'] = ctx.cfg_stats
 
 
